@@ -323,6 +323,15 @@ func (f *Frame) callByContract(con *Contract, callee *ssa.Function, sig *types.S
 	*pre = *st
 	env.st = pre
 	env.old = pre
+	// closures handed to a pure function-typed parameter: what the callee's contract says
+	// about apply(param, ...) is connected to the closure's own (verified) contract
+	if callee != nil {
+		for i, a := range args {
+			if cl, ok := a.(*Closure); ok && i < len(callee.Params) && con.Opts["param."+callee.Params[i].Name()] == "pure" {
+				f.closureAxiom(cl, callee.Params[i].Name(), pre, reach)
+			}
+		}
+	}
 	// preconditions
 	for i, r := range con.Requires {
 		t, err := env.trBool(r.Text)
@@ -359,7 +368,7 @@ func (f *Frame) callByContract(con *Contract, callee *ssa.Function, sig *types.S
 			rtypes = append(rtypes, rt)
 			var v Term
 			if con.Pure && len(con.Modifies) == 0 {
-				v = f.pureResult(key, i, args, rt)
+				v = f.pureResult(key, i, args, rt, pre)
 			} else {
 				v = f.havocValue(rt, "r."+lastName(key)).(Term)
 			}
@@ -394,6 +403,109 @@ func (f *Frame) callByContract(con *Contract, callee *ssa.Function, sig *types.S
 	return results
 }
 
+// closureAxiom instantiates the contract of a closure for the uninterpreted
+// application app.<param>.0(closure, args) that the callee's contract uses for
+// calls through its function-typed parameter <param>: for all arguments that
+// satisfy the closure's requires, the application satisfies its ensures. The
+// closure's free variables are bound to their values at the call site.
+func (f *Frame) closureAxiom(cl *Closure, pname string, st *State, reach Term) {
+	cc := f.vc.w.contracts[funcKey(cl.Fn)]
+	if cc == nil {
+		return
+	}
+	f.vc.assumed[funcKey(cl.Fn)] = true
+	env := &Env{f: f, vars: map[string]EV{}, st: st, old: st}
+	if cl.Fn.Parent() != nil && cl.Fn.Parent().Pkg != nil {
+		env.pkg = cl.Fn.Parent().Pkg.Pkg
+	} else if cl.Fn.Pkg != nil {
+		env.pkg = cl.Fn.Pkg.Pkg
+	}
+	var qdecl []string
+	var qvals []Value
+	for _, p := range cl.Fn.Params {
+		srt := f.vc.sorts.sortOf(p.Type())
+		q := Term{"q!" + smtName(p.Name()), srt}
+		qdecl = append(qdecl, fmt.Sprintf("(%s %s)", q.S, srt))
+		qvals = append(qvals, q)
+		env.vars[p.Name()] = EV{q, p.Type()}
+	}
+	for i, fv := range cl.Fn.FreeVars {
+		if i >= len(cl.Bindings) {
+			return
+		}
+		switch b := cl.Bindings[i].(type) {
+		case Term:
+			if pt, isPtr := fv.Type().Underlying().(*types.Pointer); isPtr && b.Sort == sRef {
+				// captured by reference: the variable lives in a heap cell; its value now
+				elem := pt.Elem()
+				if _, isS := elem.Underlying().(*types.Struct); isS {
+					env.vars[fv.Name()] = EV{f.loadStruct(b, elem, st), elem}
+				} else {
+					env.vars[fv.Name()] = EV{f.load(f.derefAddr(b, elem), st), elem}
+				}
+			} else {
+				env.vars[fv.Name()] = EV{b, fv.Type()}
+			}
+		case *Addr:
+			env.vars[fv.Name()] = EV{f.load(b, st), derefType(fv.Type())}
+		default:
+			return
+		}
+	}
+	for _, l := range cc.Lets {
+		text := l[1]
+		env.vars[l[0]] = EV{V: letFn(func(e *Env) (Term, types.Type) {
+			t, ty, err := e.trTyped(text, "")
+			if err != nil {
+				panic(err)
+			}
+			return t, ty
+		})}
+	}
+	sig := cl.Fn.Signature
+	var resT types.Type = sig.Results()
+	if sig.Results().Len() == 1 {
+		resT = sig.Results().At(0).Type()
+	}
+	var results Tuple
+	switch r := f.pureParamCall(pname, cl.Term, qvals, resT).(type) {
+	case Term:
+		results = Tuple{r}
+	case Tuple:
+		results = r
+	}
+	var rtypes []types.Type
+	for i := 0; i < sig.Results().Len(); i++ {
+		rtypes = append(rtypes, sig.Results().At(i).Type())
+	}
+	env.setResults(sig, results, rtypes)
+	var pres, posts []Term
+	for _, r := range cc.Requires {
+		t, err := env.trBool(r.Text)
+		if err != nil {
+			return // a precondition that cannot be stated here: say nothing about the closure
+		}
+		pres = append(pres, t)
+	}
+	for _, e := range cc.Ensures {
+		t, err := env.trBool(e.Text)
+		if err != nil {
+			continue
+		}
+		posts = append(posts, t)
+	}
+	if len(posts) == 0 {
+		return
+	}
+	body := tImp(tAnd(pres...), tAnd(posts...))
+	if len(qdecl) == 0 {
+		f.vc.assume(tImp(reach, body))
+		return
+	}
+	pat := f.valueTerm(results[0]).S
+	f.vc.assume(tImp(reach, T(sBool, "(forall (%s) (! %s :pattern (%s)))", strings.Join(qdecl, " "), body.S, pat)))
+}
+
 func lastName(key string) string {
 	if i := strings.LastIndexAny(key, "./"); i >= 0 {
 		return key[i+1:]
@@ -421,7 +533,7 @@ func clauseName(c *Clause, i int) string {
 }
 
 // pureResult gives the result of a pure function as an uninterpreted function of its arguments.
-func (f *Frame) pureResult(key string, i int, args []Value, rt types.Type) Term {
+func (f *Frame) pureResult(key string, i int, args []Value, rt types.Type, st *State) Term {
 	fn := "fn." + smtName(key)
 	if i > 0 {
 		fn += fmt.Sprintf(".%d", i)
@@ -432,6 +544,15 @@ func (f *Frame) pureResult(key string, i int, args []Value, rt types.Type) Term 
 		t := f.valueTerm(a)
 		sorts = append(sorts, t.Sort)
 		ts = append(ts, t.S)
+	}
+	if con := f.vc.w.contracts[key]; con != nil && con.Opts["pure"] == "docs" && st != nil {
+		// `pure docs`: a function of its arguments and of the documents in the heap
+		// (it reads through Doc pointers): the document component is a hidden argument
+		dk := "D:Seq_S_primitive_E"
+		f.vc.compSrt[dk] = "(Array Int Seq_S_primitive_E)"
+		d := st.get(dk)
+		sorts = append(sorts, d.Sort)
+		ts = append(ts, d.S)
 	}
 	rs := f.vc.sorts.sortOf(rt)
 	f.vc.declareFunOnce(fn, sorts, rs)
@@ -547,6 +668,9 @@ func (f *Frame) calleeFrame(tg modTarget, st *State, reach Term, pos token.Pos, 
 		}
 		top.oblige("frame", name, top.frameTags, reach, tFalse(), f.pos(pos)).Desc = "callee writes the whole component " + tg.key
 	default:
+		if tg.guard != nil {
+			reach = tAnd(reach, *tg.guard)
+		}
 		f.frameCheckNamed(name, tg.key, tg.ref, st, reach, pos)
 	}
 }
